@@ -19,15 +19,15 @@ Print Assumptions C13_shape.
 Theorem C13_fragments_tag_independent : forall ct o e stripped gt ex t merged rex,
   batch_extract ct o e stripped gt ex = Ok (merged, rex) ->
   exists rex', batch_extract ct (with_tag o t) e stripped gt ex = Ok (merged, rex') \/
-               (exists err, mapM (vrle2re false e stripped t) merged = Err err).
+               (exists err, mapM (vrle2re false (o_full_escape o) e stripped t) merged = Err err).
 Proof. exact batch_fragments_tag_independent. Qed.
 Print Assumptions C13_fragments_tag_independent.
 
 (* ... and a tagged fragment is exactly the untagged one inside one pair of capturing parentheses
    (constant fragments are never wrapped) *)
-Theorem C13_tag_only_wraps : forall out e f r,
-  fragment2re out e false f = Ok r ->
-  fragment2re out e true f = Ok (if f_fixed f then r else capture_group r).
+Theorem C13_tag_only_wraps : forall out full e f r,
+  fragment2re out full e false f = Ok r ->
+  fragment2re out full e true f = Ok (if f_fixed f then r else capture_group r).
 Proof. exact fragment_tag_only_wraps. Qed.
 Print Assumptions C13_tag_only_wraps.
 
